@@ -15,8 +15,10 @@ CONSTANTS NN, MaxOps,
           Snap        \* TRUE: every node keeps a snapshot file and re-joins the members it last knew alive when restarted
 Nodes == 0..(NN - 1)
 
-VARIABLES st, comp, know, part, ops, last, M
-vars == <<st, comp, know, part, ops, last, M>>
+VARIABLES st, comp, know, part, ops, last, M, passive
+vars == <<st, comp, know, part, ops, last, M, passive>>
+\* passive: nodes started again after a graceful leave that have not issued a join of their own since (they were only
+\* joined BY others, so they never broadcast a join intent newer than their old leave)
 \* know[n][x]: what running node n should know about x: 0 nothing, 1 x is a live member of n's cluster,
 \* 2 the incarnation of x that n knew left gracefully, 3 the incarnation of x that n knew died
 
@@ -41,6 +43,7 @@ Start(x) ==
        ELSE /\ comp' = [m \in Nodes |-> IF m = x THEN {x} ELSE comp[m] \ {x}]
             /\ know' = [know EXCEPT ![x] = [Blank EXCEPT ![x] = 1]]
   /\ last' = [a |-> "start", x |-> x]
+  /\ passive' = IF st[x] = 2 THEN passive \cup {x} ELSE passive \ {x}
   /\ UNCHANGED part
 Join(x, y) ==
   /\ x # y /\ st[x] = 1 /\ st[y] = 1 /\ SameSide(x, y) /\ y \notin comp[x]
@@ -49,31 +52,32 @@ Join(x, y) ==
      /\ comp' = [m \in Nodes |-> IF m \in grp THEN grp ELSE comp[m]]
      /\ know' = [n \in Nodes |-> IF n \in live THEN [m \in Nodes |-> IF m \in live THEN 1 ELSE know[n][m]] ELSE know[n]]
   /\ last' = [a |-> "join", x |-> x, y |-> y]
+  /\ passive' = passive \ {x}
   /\ UNCHANGED <<st, part>>
 Leave(x) ==         \* graceful leave followed by shutdown, issued while the network is whole
   /\ st[x] = 1 /\ part = {} /\ Cardinality(comp[x] \cap Running) >= 2
   /\ st' = [st EXCEPT ![x] = 2]
   /\ know' = [n \in Nodes |-> IF n # x /\ know[n][x] = 1 THEN [know[n] EXCEPT ![x] = 2] ELSE know[n]]
   /\ last' = [a |-> "leave", x |-> x]
-  /\ UNCHANGED <<comp, part>>
+  /\ UNCHANGED <<comp, part, passive>>
 Crash(x) ==
   /\ st[x] = 1
   /\ st' = [st EXCEPT ![x] = 3]
   /\ know' = [n \in Nodes |-> IF n # x /\ know[n][x] = 1 THEN [know[n] EXCEPT ![x] = 3] ELSE know[n]]
   /\ last' = [a |-> "crash", x |-> x]
-  /\ UNCHANGED <<comp, part>>
+  /\ UNCHANGED <<comp, part, passive>>
 Partition(S) ==
   /\ part = {} /\ S # {} /\ S # Nodes
   /\ part' = S
   /\ last' = [a |-> "partition", s |-> [i \in 1..NN |-> IF (i - 1) \in S THEN 1 ELSE 0]]
-  /\ UNCHANGED <<st, comp, know>>
+  /\ UNCHANGED <<st, comp, know, passive>>
 Heal ==
   /\ part # {} /\ part' = {}
   /\ last' = [a |-> "heal"]
-  /\ UNCHANGED <<st, comp, know>>
+  /\ UNCHANGED <<st, comp, know, passive>>
 Wait ==
   /\ last' = [a |-> "wait"]
-  /\ UNCHANGED <<st, comp, know, part>>
+  /\ UNCHANGED <<st, comp, know, part, passive>>
 
 ------------------------------------------------------------------------------
 (* C01 on the observed final views.  v[n+1][x+1] = status node n reports for x.  *)
@@ -85,14 +89,18 @@ Allowed(n, x) ==
 Wrong(v) == { <<n, x>> \in Nodes \X Nodes : st[n] = 1 /\ n # x /\ v[n + 1][x + 1] \notin Allowed(n, x) }
 SelfWrong(v) == { n \in Nodes : st[n] = 1 /\ v[n + 1][n + 1] # 1 }
 
-MonInit == M = [bad |-> {}, wrong |-> {}]
+MonInit == M = [bad |-> {}, wrong |-> {}, tags |-> {}]
 MonQuiet(m, v) ==
   [ bad |-> m.bad \cup (IF Wrong(v) = {} THEN {} ELSE {"C01_view_not_converged"})
                   \cup (IF SelfWrong(v) = {} THEN {} ELSE {"C01_self_not_alive"}),
-    wrong |-> Wrong(v) ]
+    wrong |-> Wrong(v),
+    \* every wrong view is about a passively re-joined node still shown leaving/left: its peers hold the old leave
+    \* claim, nothing newer was ever broadcast (recorded finding, same mechanism as the C02 laundering finding)
+    tags |-> IF Wrong(v) # {} /\ \A w \in Wrong(v) : w[2] \in passive /\ v[w[1] + 1][w[2] + 1] \in {2, 3}
+               THEN {"passive_rejoin_after_leave"} ELSE {} ]
 
 Init == /\ st = [x \in Nodes |-> 0] /\ comp = [x \in Nodes |-> {x}] /\ know = [x \in Nodes |-> Blank]
-        /\ part = {} /\ ops = 0 /\ last = [a |-> "init"] /\ MonInit
+        /\ part = {} /\ ops = 0 /\ last = [a |-> "init"] /\ MonInit /\ passive = {}
 
 Op == \/ \E x \in Nodes : Start(x) \/ Leave(x) \/ Crash(x)
       \/ \E x, y \in Nodes : Join(x, y)
